@@ -8,7 +8,9 @@
 #include <etl/_cmath/isinf.hpp>
 #include <etl/_cmath/isnan.hpp>
 #include <etl/_cmath/sqrt.hpp>
+#include <etl/_concepts/same_as.hpp>
 #include <etl/_limits/numeric_limits.hpp>
+#include <etl/_type_traits/is_constant_evaluated.hpp>
 
 namespace etl {
 
@@ -24,6 +26,20 @@ inline constexpr struct hypot {
         if (etl::isnan(x) or etl::isnan(y)) {
             return etl::numeric_limits<Float>::quiet_NaN();
         }
+#if not defined(__AVR__)
+        if (not is_constant_evaluated()) {
+    #if __has_builtin(__builtin_hypotf)
+            if constexpr (etl::same_as<Float, float>) {
+                return __builtin_hypotf(x, y);
+            }
+    #endif
+    #if __has_builtin(__builtin_hypot)
+            if constexpr (etl::same_as<Float, double>) {
+                return __builtin_hypot(x, y);
+            }
+    #endif
+        }
+#endif
         return etl::sqrt(x * x + y * y);
     }
 
